@@ -150,6 +150,44 @@ Certified ==
 Anchored == {"E_a_1", "E_a_2", "E_b_1", "E_b_2"} \subseteq Certified
 
 (***************************************************************************)
+(* What an accepted Boudot proof shows about the committed value (tolerance *)
+(* arithmetic, toy sizes).  With x' = 2^T x the verifier's statement is      *)
+(*     x' - low  = s_a^2 + y_a        high - x' = s_b^2 + y_b                *)
+(* where the squares are certified by the proofs of square and y_a, y_b by   *)
+(* the larger-interval proof.  That proof, run with bound B and expansion    *)
+(* 2^(t+l), only shows y >= -2^(t+l) * B; so a value x is acceptable iff     *)
+(* both differences are >= -2^(t+l) * B.  Soundness needs that tolerance to  *)
+(* be below 2^T.                                                            *)
+(* Intended ([Boudot2000] 3.1.1/3.1.2): low = 2^T a, high = 2^T b,           *)
+(*   B = 2 (isqrt(2^T (b - a)) + 1)  (the honest remainders are <= 2 sqrt).  *)
+(* F13 (as is): low / high are already widened by 2^(t+l+T/2+1) sqrt(b - a)  *)
+(*   and the larger-interval proof is run with B = 2^T * b, so the tolerance *)
+(*   is about 2^(t+l) * b in units of x instead of less than 1.              *)
+(* tl stands for t + l.                                                      *)
+(***************************************************************************)
+ISqrt(n) == CHOOSE s \in 0 .. 400 : s * s <= n /\ n < (s + 1) * (s + 1)
+BitLen(n) == CHOOSE k \in 0 .. 30 : IF k = 0 THEN n = 0 ELSE Pow2(k - 1) <= n /\ n < Pow2(k)
+BT(tl, a, b) == 2 * (tl + 1) + BitLen(b - a)
+BWiden(tl, a, b) == IF "F13" \in Dev THEN Pow2(tl + (BT(tl, a, b) \div 2) + 1) * ISqrt(b - a) ELSE 0
+BLow(tl, a, b)  == Pow2(BT(tl, a, b)) * a - BWiden(tl, a, b)
+BHigh(tl, a, b) == Pow2(BT(tl, a, b)) * b + BWiden(tl, a, b)
+BCftBound(tl, a, b) == IF "F13" \in Dev THEN Pow2(BT(tl, a, b)) * b ELSE 2 * (ISqrt(Pow2(BT(tl, a, b)) * (b - a)) + 1)
+BTol(tl, a, b) == Pow2(tl) * BCftBound(tl, a, b)
+BAcceptable(tl, a, b, x) ==
+  /\ Pow2(BT(tl, a, b)) * x - BLow(tl, a, b) >= -BTol(tl, a, b)
+  /\ BHigh(tl, a, b) - Pow2(BT(tl, a, b)) * x >= -BTol(tl, a, b)
+\* C16, soundness: nothing outside [a, b] is acceptable
+BoudotSound(tl, a, b) == \A x \in (a - 2 * (b - a) - 8) .. (b + 2 * (b - a) + 8) : BAcceptable(tl, a, b, x) => (a <= x /\ x <= b)
+\* C16, completeness: the honest remainders of every in-range value fit the bound of the larger-interval proof
+BoudotComplete(tl, a, b) ==
+  \A x \in a .. b :
+    LET xa == Pow2(BT(tl, a, b)) * x - BLow(tl, a, b)
+        xb == BHigh(tl, a, b) - Pow2(BT(tl, a, b)) * x
+    IN  /\ xa >= 0 /\ xb >= 0
+        /\ xa - ISqrt(xa) * ISqrt(xa) <= BCftBound(tl, a, b)
+        /\ xb - ISqrt(xb) * ISqrt(xb) <= BCftBound(tl, a, b)
+
+(***************************************************************************)
 (* Links between the sub-proofs of the two composite proofs: which embedded *)
 (* statement is compared with which other value by proof_verify /           *)
 (* verify_proof.  A sub-proof whose statement is not linked can be replaced *)
